@@ -114,6 +114,26 @@ pub fn run(ctx: &mut Ctx, _replay: Option<&[String]>) {
         }
         if !long_ok { ctx.emit(&format!("c14 hard8 - {}", hx(s)), "long-batch-has-the-wrong-number-of-llrs", true, &["8psk-demodulate-one-long-batch"]); }
     }
+    // ONE call of each `modulate` on more than 200 000 bits (bit positions beyond 2^16 and 3 * 2^16): sampled symbols of the result, each
+    // judged as the symbol of ITS OWN three (one) bits
+    {
+        let nsym = 70_000 + rng.below(3000);
+        let bits: Vec<bool> = (0..3 * nsym).map(|_| rng.chance(1, 2)).collect();
+        let m8 = Psk8Modulator::new().modulate(&gf2(&bits));
+        let mb = BpskModulator::new().modulate(&gf2(&bits));
+        let mut idx: Vec<usize> = vec![0, 1, nsym - 1, nsym - 2];
+        for base in [21845usize, 21846, 43690, 43691, 65535, 65536, 65537] { for d in [0usize, 1, 2] { idx.push(base + d); idx.push(base - d); } }
+        for _ in 0..80 { idx.push(rng.below(nsym)); }
+        if m8.len() != nsym || mb.len() != 3 * nsym {
+            ctx.emit(&format!("c14 hard8 - {}", hx(1.0)), "long-modulate-has-the-wrong-number-of-symbols", true, &["8psk-modulate-one-long-batch"]);
+        } else {
+            for &i in &idx {
+                ctx.emit(&format!("c14 mod8 {}", bools(bits[3 * i..3 * i + 3].iter().copied())), &format!("{}.{}", hx(m8[i].re), hx(m8[i].im)), true, &["8psk-modulate-one-long-batch"]);
+                let j = if i % 2 == 0 { i } else { 3 * i };
+                ctx.emit(&format!("c14 modb {}", bools(bits[j..j + 1].iter().copied())), &hx(mb[j]), true, &["bpsk-modulate-one-long-batch"]);
+            }
+        }
+    }
     for _ in 0..ctx.scale(6000, 1_000_000) {
         let s = (0.05f64.ln() + rng.f64_unit() * (10.0f64 / 0.05).ln()).exp();
         let re = 12.0 * rng.f64_unit() - 6.0;
